@@ -324,6 +324,14 @@ def run_life(prop, tier, seed, keep=False):
             summarize_trace(w.path("trace.ndjson"), ev, "")
             rc = trace_validate(w, prop, ["C09", "C06"], "trace.ndjson", ev, label="redefine-scenarios")
         if rc == 0 and prop == "C11":
+            # run-once functions of every form inside ordinary scenarios (a converter needed several times in one call)
+            n = 2500 if tier == "quick" else 25000
+            w.run_drive(["gen", "-profile", "oncey", "-n", str(n), "-seed", str(seed), "-out", "scenarios.json"])
+            r = w.run_drive(["run", "-in", "scenarios.json", "-reps", "3", "-seed", str(seed), "-out", "trace.ndjson"])
+            log(r.stderr.strip())
+            summarize_trace(w.path("trace.ndjson"), ev, "")
+            rc = trace_validate(w, prop, ["C11", "C06", "C01", "C04"], "trace.ndjson", ev, label="once-scenarios")
+        if rc == 0 and prop == "C11":
             rc = once_stage(w, tier, seed, ev)
         ev.cov["exhaustive"] = True
         ev.cov["distinct_nontrivial"] = max(ev.cov.get("distinct_nontrivial", 0), ev.cov.get("histories", 0))
@@ -531,7 +539,7 @@ def run_c19(tier, seed, keep=False):
         log(r.stderr.strip())
         r = w.run_drive(["graph-hist", "-n", str(100 if q else 1500), "-len", "60", "-keys", "4", "-handles", "4", "-seed", str(seed + 7), "-out", "g_rand4.ndjson"])
         isstart = lambda x: x.startswith('{"op":"reset"')
-        inv = ["Conforms", "ApiMirror", "Mirror", "EdgesAmongPresent", "DomAgree", "ReverseTwice"]
+        inv = ["Conforms", "Applicable", "ApiMirror", "Mirror", "EdgesAmongPresent", "DomAgree", "ReverseTwice"]
         rc = generic_trace_validate(w, "C19", "GraphTrace.tla", inv, gconst, "g_tlc.ndjson", ev, isstart, "tlc-generated-histories")
         rc = rc or generic_trace_validate(w, "C19", "GraphTrace.tla", inv, gconst, "g_rand.ndjson", ev, isstart, "random-histories")
         rc = rc or generic_trace_validate(w, "C19", "GraphTrace.tla", inv, dict(gconst, Keys='{"a","b","c","d"}', MaxHandles="4"),
